@@ -724,19 +724,25 @@ fn parse_constant_value(
                 .map(|x| x.map(GraphQLConstantValue::Enum))
         })?;
 
-        to_control_flow(|| {
-            tokens.with_embedded_location_result::<_, Diagnostic>(|tokens| {
+        // Once the opening bracket (or brace, below) has been consumed we are committed: an error
+        // inside the list is an error of the whole value. Falling through to the next
+        // alternative would continue in the middle of the list with tokens already consumed.
+        if tokens.peek().item == TokenKind::OpenBracket {
+            return match tokens.with_embedded_location_result::<_, Diagnostic>(|tokens| {
                 tokens.parse_token_of_kind(TokenKind::OpenBracket)?;
                 let mut values = vec![];
                 while tokens.parse_token_of_kind(TokenKind::CloseBracket).is_err() {
                     values.push(parse_constant_value(tokens)?);
                 }
                 GraphQLConstantValue::List(values).wrap_ok()
-            })
-        })?;
+            }) {
+                Ok(list) => ControlFlow::Break(list),
+                Err(e) => ControlFlow::Continue(e),
+            };
+        }
 
-        to_control_flow(|| {
-            tokens.with_embedded_location_result::<_, Diagnostic>(|tokens| {
+        if tokens.peek().item == TokenKind::OpenBrace {
+            return match tokens.with_embedded_location_result::<_, Diagnostic>(|tokens| {
                 tokens.parse_token_of_kind(TokenKind::OpenBrace)?;
 
                 let mut values = vec![];
@@ -747,8 +753,11 @@ fn parse_constant_value(
                     values.push(NameValuePair { name, value });
                 }
                 GraphQLConstantValue::Object(values).wrap_ok()
-            })
-        })?;
+            }) {
+                Ok(object) => ControlFlow::Break(object),
+                Err(e) => ControlFlow::Continue(e),
+            };
+        }
 
         ControlFlow::Continue(Diagnostic::new(
             "Unable to parse constant value".to_string(),
